@@ -199,8 +199,7 @@ func clusterCase(c *corr.Ctx, spec runSpec, n int) (corr.Case, map[string]int, e
 			}
 		}
 	}
-	st := map[string]int{"ops_ok": okOps, "ops_notleader": notLeader, "reads_served": reads, "applies": applies,
-		"restarts": starts, "runs": 1}
+	st := map[string]int{"ops_ok": okOps, "ops_notleader": notLeader, "reads_served": reads, "applies": applies, "runs": 1}
 	if len(leaders) > 1 {
 		st["runs_with_leader_change"] = 1
 	}
